@@ -140,7 +140,8 @@ def loader(chk):
         chk.canary(f"loader/{method}", [pair, data])
 
 
-def constructor(chk):
+def constructor(chk, resolution_only=False):
+    """resolution_only (used by C12): only the clauses about *which* grid a request builds - no cache route, no data clauses."""
     eng = chk.eng
     cls = eng.get_class(MOD, "AngularGrid")
     fq = f"{MOD}.AngularGrid.__init__"
@@ -170,7 +171,7 @@ def constructor(chk):
         for mode, table in (("degree", deg_t), ("size", npt_t)):
             keys = sorted(table)
             kmax = keys[-1]
-            for cache in ((True, False) if mode == "degree" else (False,)):      # the cache is keyed by the resolved degree: one request mode suffices for the hit route
+            for cache in ((True, False) if mode == "degree" and not resolution_only else (False,)):      # the cache is keyed by the resolved degree: one request mode suffices for the hit route
                 tag = f"init/{method}/by-{mode}/cache-{'on' if cache else 'off'}"
 
                 def thunk(eng_, mode=mode, cache=cache, kmax=kmax, spelled=spelled):
@@ -214,6 +215,11 @@ def constructor(chk):
                     hyp = pc + [i0 >= 0, i0 < NR(mid, D)]
                     for gi, g in ((("first", g1), ("again", g2)) if cache else (("first", g1),)):
                         pts, wts = g.fields["_points"], g.fields["_weights"]
+                        if resolution_only:
+                            chk.add(f"{tag}/post/{gi}/rows-degree-method@{pi}", pc,
+                                    z3.And(T.zi(pts.shape[0]) == NR(mid, D), T.zi(wts.shape[0]) == NR(mid, D), T.zi(g.fields["_degree"]) == D,
+                                           z3.BoolVal(g.fields.get("_method") == method)), func=fq, meta={"replay": rep})
+                            continue
                         chk.add(f"{tag}/post/{gi}/points-are-the-files@{pi}", hyp, z3.And(*[T.zr(pts.fn(i0, c)) == P(mid, D, i0, c) for c in range(3)]), func=fq, meta={"replay": rep})
                         chk.add(f"{tag}/post/{gi}/weights-are-the-files-times-scale@{pi}", hyp, T.zr(wts.fn(i0)) == Wf(mid, D, i0) * scale, func=fq, meta={"replay": rep})
                         chk.add(f"{tag}/post/{gi}/rows-degree-method@{pi}", pc,
